@@ -75,6 +75,7 @@ const (
 	c09ClassHarnessSelf = "C09-harness-self-check"
 	c09ClassLeaderList  = "C09-leader-list-verification-entry-never-holds"
 	c09ClassLeaderErr   = "C09-leader-commit-error-class"
+	c09ClassCrashAtomic = "C09-crash-inside-apply-state-not-replay-of-resume-index"
 )
 
 // ---------------------------------------------------------------------------
@@ -903,12 +904,16 @@ func c09Drive(env *c09Env, l *c09Log, plan c09Plan, rng *kit.Rand, snaps map[int
 	}
 
 	pos, evi, cuti := 0, 0, 0
+	armed := "" // "pre" | "post": crash seam inside the next ApplyBatch
 	for {
 		// events scheduled at this position
 		for evi < len(plan.Events) && plan.Events[evi].Ord <= pos {
 			ev := plan.Events[evi]
 			evi++
 			switch ev.Kind {
+			case "crashin-post", "crashin-pre":
+				// the process dies INSIDE the ApplyBatch call that delivers the next batch
+				armed = strings.TrimPrefix(ev.Kind, "crashin-")
 			case "restart", "crash":
 				if ev.Kind == "restart" {
 					if err := fsm.Close(); err != nil {
@@ -1090,6 +1095,35 @@ func c09Drive(env *c09Env, l *c09Log, plan c09Plan, rng *kit.Rand, snaps map[int
 		run.Stats["batches"]++
 		run.Batches = append(run.Batches, [2]uint64{batch[0].Log.Index, batch[len(batch)-1].Log.Index})
 		var resp []any
+		// Crash inside the call: the database file is captured at one of the two
+		// points the state machine itself exposes between its durable writes and its
+		// return (applyCallback: chunk staging is committed, the batch is not yet;
+		// invalidate hook: the batch is committed, the call has not returned). The
+		// process is then considered dead: whatever the call does afterwards is lost.
+		crashDir, crashErr := "", error(nil)
+		if armed != "" {
+			ndir := fmt.Sprintf("%s-in%d", dir, len(run.Resets))
+			snapFile := func() {
+				if crashDir != "" || crashErr != nil {
+					return
+				}
+				os.RemoveAll(ndir)
+				if crashErr = os.MkdirAll(ndir, 0o700); crashErr != nil {
+					return
+				}
+				if crashErr = c09CopyFile(filepath.Join(dir, databaseFilename), filepath.Join(ndir, databaseFilename)); crashErr == nil {
+					crashDir = ndir
+				}
+			}
+			defer os.RemoveAll(ndir)
+			if armed == "pre" {
+				fsm.l.Lock()
+				fsm.applyCallback = snapFile
+				fsm.l.Unlock()
+			} else {
+				fsm.hookInvalidate(func(...string) { snapFile() })
+			}
+		}
 		func() {
 			defer func() {
 				if p := recover(); p != nil {
@@ -1100,6 +1134,85 @@ func c09Drive(env *c09Env, l *c09Log, plan c09Plan, rng *kit.Rand, snaps map[int
 		}()
 		if run.Dev != nil {
 			return run
+		}
+		if armed != "" {
+			seam := armed
+			armed = ""
+			if crashErr != nil {
+				fail(c09ClassHarnessSelf, "crash capture: "+crashErr.Error(), nil)
+				return run
+			}
+			if crashDir == "" {
+				// the batch never reached FSM.ApplyBatch (non-final chunks only): crash right after the call
+				seam = "after-call"
+				crashDir = fmt.Sprintf("%s-in%d", dir, len(run.Resets))
+				os.RemoveAll(crashDir)
+				if err := os.MkdirAll(crashDir, 0o700); err != nil {
+					fail(c09ClassHarnessSelf, err.Error(), nil)
+					return run
+				}
+				if err := c09CopyFile(filepath.Join(dir, databaseFilename), filepath.Join(crashDir, databaseFilename)); err != nil {
+					fail(c09ClassHarnessSelf, "copy: "+err.Error(), nil)
+					return run
+				}
+			}
+			fsm.Close()
+			dir = crashDir
+			fsm, err = NewFSM(dir, "verif", env.logger)
+			if err != nil {
+				fsm = nil
+				fail(c09ClassHarnessSelf, "reopen: "+err.Error(), nil)
+				return run
+			}
+			store, err = NewBoltSnapshotStore(dir, env.logger, fsm)
+			if err != nil {
+				fail(c09ClassHarnessSelf, err.Error(), nil)
+				return run
+			}
+			metas, err := store.List()
+			if err != nil {
+				fail(c09ClassHarnessSelf, "List: "+err.Error(), nil)
+				return run
+			}
+			rIdx := uint64(0)
+			if len(metas) > 0 {
+				rIdx = metas[0].Index
+			}
+			// Wherever inside the call the process died, raft resumes after the index the
+			// store lists; that is only right if the bucket is exactly the replay of the
+			// log up to that index (either before or after the batch, never in between).
+			mi := uint64(0)
+			for _, e := range l.Entries {
+				if e.Visible && e.Log.Index <= rIdx && e.Log.Index > mi {
+					mi = e.Log.Index
+				}
+			}
+			for _, rs := range run.Resets {
+				if rs.Kind == "install" && rs.P <= rIdx && rs.P > mi {
+					mi = rs.P
+				}
+			}
+			kind := "crash-in-apply-" + seam
+			run.Stats["crashes_inside_apply_"+seam]++
+			if rIdx < batch[0].Log.Index {
+				run.Stats["crashes_inside_apply_batch_replayed"]++
+			}
+			d, derr := c09Dump(fsm)
+			if derr != nil {
+				fail(c09ClassHarnessSelf, "dump: "+derr.Error(), nil)
+				return run
+			}
+			if diff := c09DiffState(d, l.Hist[mi]); diff != "" {
+				fail(c09ClassCrashAtomic, fmt.Sprintf("replica died inside ApplyBatch(entries %d..%d) at the %s point; after reopening, the snapshot store lists index %d (raft replays from %d) but the data bucket is not the replay of the log up to %d: %s", batch[0].Log.Index, batch[len(batch)-1].Log.Index, seam, rIdx, rIdx+1, mi, diff), map[string]any{"resume_after_index": rIdx, "seam": seam})
+				return run
+			}
+			li, _ := fsm.LatestState()
+			known = map[uint64]struct{}{}
+			run.Resets = append(run.Resets, c09Reset{Ord: pos, Kind: kind, P: rIdx})
+			modelIdx, expectLatest, expectTerm = mi, rIdx, li.Term
+			lastDelivered, lastDeliveredTerm = rIdx, li.Term
+			pos = ordAfter(rIdx)
+			continue
 		}
 		if len(resp) != len(logs) {
 			fail(c09ClassShape, fmt.Sprintf("%d responses for %d logs", len(resp), len(logs)), nil)
@@ -1523,6 +1636,8 @@ func c09Plans(rng *kit.Rand, l *c09Log, nrep int) []c09Plan {
 		{Name: "restart", MaxBatch: 6, Events: []c09Event{{Ord: inWindow(), Kind: "restart"}}},
 		{Name: "crash", MaxBatch: 3, Events: []c09Event{{Ord: inWindow(), Kind: "crash"}}},
 		{Name: "install-fresh", MaxBatch: 5, Events: []c09Event{{Ord: inWindow(), Kind: "install"}}},
+		{Name: "crash-in-apply-post", MaxBatch: 8, Events: []c09Event{{Ord: inWindow() - 1, Kind: "crashin-post"}}},
+		{Name: "crash-in-apply-pre", MaxBatch: 8, Events: []c09Event{{Ord: inWindow() - 1, Kind: "crashin-pre"}}},
 		{Name: "restart-twice", MaxBatch: 8, Events: []c09Event{{Ord: ord(), Kind: "restart"}, {Ord: inWindow(), Kind: "restart"}}},
 		{Name: "install-lagging", MaxBatch: 4, Events: []c09Event{{Ord: 0, Kind: "lag"}, {Ord: inWindow(), Kind: "install"}}},
 		{Name: "localsnap-restart", MaxBatch: 5, Events: []c09Event{{Ord: ord(), Kind: "localsnap"}, {Ord: inWindow(), Kind: "restart"}}},
@@ -1629,7 +1744,7 @@ func TestVerif_C09_Logs(t *testing.T) {
 	defer r.Write(t)
 	env := c09NewEnv(t, "0")
 	ncases := kit.N(1000, 50000)
-	nrep := kit.N(6, 10)
+	nrep := kit.N(8, 12)
 	shard, shards := kit.Shard()
 	sampled := 0
 	for i := 0; i < ncases; i++ {
@@ -1674,6 +1789,8 @@ func TestVerif_C09_Logs(t *testing.T) {
 	req("installs_with_zero_length_value_after_nonempty_neighbour", 200)
 	req("installs_with_single_nul_value", 150)
 	req("installs_with_key_prefix_of_next_key", 200)
+	req("crashes_inside_apply_post", 400)
+	req("crashes_inside_apply_pre", 400)
 	req("replica_runs_checked_to_the_end", 3000)
 }
 
@@ -1740,6 +1857,18 @@ func TestVerif_C09_Small(t *testing.T) {
 				c09Plan{Name: fmt.Sprintf("install@%d-lagging", p), Cuts: allcuts, Events: []c09Event{{Ord: 0, Kind: "lag"}, {Ord: p, Kind: "install"}}},
 			)
 		}
+		// the process dies inside the ApplyBatch call that starts at entry p
+		for p := 0; p < n; p++ {
+			allcuts := make([]int, n)
+			for k := range allcuts {
+				allcuts[k] = k + 1
+			}
+			plans = append(plans,
+				c09Plan{Name: fmt.Sprintf("crash-in-apply-post@%d-maxbatch", p), Cuts: []int{p, n}, Events: []c09Event{{Ord: p, Kind: "crashin-post"}}},
+				c09Plan{Name: fmt.Sprintf("crash-in-apply-post@%d-single", p), Cuts: allcuts, Events: []c09Event{{Ord: p, Kind: "crashin-post"}}},
+				c09Plan{Name: fmt.Sprintf("crash-in-apply-pre@%d-maxbatch", p), Cuts: []int{p, n}, Events: []c09Event{{Ord: p, Kind: "crashin-pre"}}},
+			)
+		}
 		for k := range plans {
 			plans[k].Stream = uint64(k%250 + 1)
 			if plans[k].MaxBatch == 0 {
@@ -1755,6 +1884,8 @@ func TestVerif_C09_Small(t *testing.T) {
 	req := func(name string, quick int) { r.Require(name, int64(kit.N(quick, quick*25)/shards)) }
 	req("logs_with_conflicting_txn", 35)
 	req("partitions", 3500)
+	req("crashes_inside_apply_post", 600)
+	req("crashes_inside_apply_pre", 300)
 	req("installs_with_zero_length_value_after_nonempty_neighbour", 100)
 	req("installs_with_single_nul_value", 100)
 	req("resets_inside_conflicting_txn_window", 450)
@@ -2153,7 +2284,7 @@ func TestVerif_C09_LeaderLog(t *testing.T) {
 				}
 			}
 		}
-		nres := kit.N(36, 120)
+		nres := kit.N(48, 144)
 		for k := 0; k < nres; k++ {
 			pos := 1 + rng.Intn(n-1)
 			if len(candsConf) > 0 && k%3 != 2 {
@@ -2161,9 +2292,12 @@ func TestVerif_C09_LeaderLog(t *testing.T) {
 			} else if len(cands) > 0 {
 				pos = kit.Pick(rng, cands)
 			}
-			kind := []string{"restart", "crash", "install", "install"}[k%4]
+			kind := []string{"restart", "crash", "install", "install", "crashin-post", "crashin-pre"}[k%6]
 			p := c09Plan{Name: fmt.Sprintf("%s@%d", kind, pos), MaxBatch: 1 + rng.Intn(16), Events: []c09Event{{Ord: pos, Kind: kind}}}
-			if kind == "install" && k%8 >= 4 {
+			if strings.HasPrefix(kind, "crashin") {
+				p.Events[0].Ord = pos - 1 // the batch that dies starts just before a position inside a window
+			}
+			if kind == "install" && (k/6)%2 == 1 {
 				p.Name += "-lagging"
 				p.Events = []c09Event{{Ord: 0, Kind: "lag"}, {Ord: pos, Kind: "install"}}
 			}
@@ -2175,7 +2309,7 @@ func TestVerif_C09_LeaderLog(t *testing.T) {
 		r.Eval(len(plans) + 1)
 		for _, p := range plans {
 			for _, e := range p.Events {
-				if e.Kind == "install" || e.Kind == "restart" || e.Kind == "crash" {
+				if e.Kind == "install" || e.Kind == "restart" || e.Kind == "crash" || strings.HasPrefix(e.Kind, "crashin") {
 					r.Nontrivial(fmt.Sprintf("K%d/%s", sess, p.Name))
 				}
 			}
@@ -2193,6 +2327,7 @@ func TestVerif_C09_LeaderLog(t *testing.T) {
 	req("leader_txn_commit", 60)
 	req("leader_txn_conflict", 30)
 	req("leader_txn_lists", 150)
+	req("crashes_inside_apply_post", 8)
 	req("installs_with_zero_length_value_after_nonempty_neighbour", 8)
 	req("installs_with_single_nul_value", 6)
 	req("resets_inside_conflicting_txn_window", 30)
